@@ -13,7 +13,12 @@ M_CELLS = list(range(minif.M_LO, minif.M_HI + 1))
 class RGen(minif.BodyGen):
     """BodyGen biased so that regions of every kind occur: read-modify-write of array
     elements (first access READ), scalar temporaries assigned at the top level, scalars
-    updated in place, plain (partial) element writes, conditionally written variables."""
+    updated in place, plain (partial) element writes, conditionally written variables,
+    DO WHILE loops (bounded by the counter `w`), and — if `codeblocks` — statements PSyclone
+    keeps as CodeBlocks (expression CodeBlocks: array constructors with implied DO;
+    statement CodeBlocks: FORALL, PRINT)."""
+    codeblocks = False
+    p_while = 0.08
 
     def assign(self, live, ind="  "):
         r = self.rng
@@ -29,16 +34,71 @@ class RGen(minif.BodyGen):
             return [f"{ind}{s} = {s} + {self.expr(live, 1)}"]
         return super().assign(live, ind)
 
+    def while_loop(self, live, ind, depth):
+        """`do while (<array or scalar test> .and. w > 0 .and. w < 4)`; `w` is only changed by
+        the final `w = w - 1`, so the loop makes at most 3 iterations whatever the store"""
+        r = self.rng
+        out = []
+        if r.random() < 0.6:
+            out.append(f"{ind}w = {r.randint(1, 3)}")
+        a, k = r.choice(self.arrays1), r.randint(0, 6)
+        kind = r.random()
+        if kind < 0.6:
+            test = f"{a}({k}) {r.choice(['>', '>=', '/='])} {r.randint(0, 3)} .and. "
+        elif kind < 0.8 and self.scalars:
+            test = f"{r.choice(self.scalars)} < {r.randint(3, 9)} .and. "
+        else:
+            test = ""
+        out.append(f"{ind}do while ({test}w > 0 .and. w < 4)")
+        if kind < 0.6 and r.random() < 0.6:      # the tested element is (re)written first in the body
+            rhs = str(r.randint(0, 2)) if r.random() < 0.5 else f"{a}({k}) - 1"
+            out.append(f"{ind}  {a}({k}) = {rhs}")
+        out += self.block(live, r.randint(1, 2), ind + "  ", depth + 1)
+        out.append(f"{ind}  w = w - 1")
+        out.append(f"{ind}enddo")
+        return out
 
-def gen_program(rng, nstmts):
+    def codeblock_stmt(self, live, ind):
+        r = self.rng
+        s = r.choice(self.scalars)
+        t = r.choice(self.scalars)
+        a, b = r.choice(self.arrays1), r.choice(self.arrays1)
+        k = r.randint(0, 4)
+        x = r.random()
+        if x < 0.3:
+            return [f"{ind}{s} = sum((/ ({t} * ii, ii = 1, 3) /))"]
+        if x < 0.5:
+            return [f"{ind}{a}({k}:{k + 2}) = (/ ({t} + ii, ii = 1, 3) /)"]
+        if x < 0.7:
+            return [f"{ind}{s} = maxval((/ ({b}(ii), ii = {k}, {k + 2}) /)) + {t}"]
+        if x < 0.9:
+            return [f"{ind}forall (ii = {k}:{k + 2}) {a}(ii) = {t} + ii"]
+        return [f"{ind}print *, {s}"]
+
+    def block(self, live, n, ind="  ", depth=0):
+        r = self.rng
+        out = []
+        for _ in range(n):
+            x = r.random()
+            if x < self.p_while and depth < 2:
+                out += self.while_loop(live, ind, depth)
+            elif self.codeblocks and x < self.p_while + 0.12:
+                out += self.codeblock_stmt(live, ind)
+            else:
+                out += super().block(live, 1, ind, depth)
+        return out
+
+
+def gen_program(rng, nstmts, codeblocks=False):
     scalars = ["s0", "s1", "t"][: rng.randint(1, 3)]
     arrays1 = ["a", "b", "c"][: rng.randint(2, 3)]
     arrays2 = ["m"] if rng.random() < 0.3 else []
     loopvars = ["i", "j", "k"]
-    init = minif.gen_init(rng, scalars, arrays1, arrays2)
+    init = minif.gen_init(rng, scalars, arrays1, arrays2) + ["  w = 0"]
     bg = RGen(rng, scalars, arrays1, arrays2, loopvars)
+    bg.codeblocks = codeblocks
     body = bg.block([], nstmts)
-    return minif.Prog(scalars, arrays1, arrays2, loopvars + ["ii", "jj"], init, body)
+    return minif.Prog(scalars, arrays1, arrays2, loopvars + ["ii", "jj", "w"], init, body)
 
 
 def source_of(prog, body=None):
@@ -47,7 +107,78 @@ def source_of(prog, body=None):
 
 
 def n_init_nodes(prog):
-    return len(prog.scalars) + len(prog.arrays1) + len(prog.arrays2)
+    return len(prog.scalars) + len(prog.arrays1) + len(prog.arrays2) + 1
+
+
+# ---------------------------------------------------------------------------
+# PSyIR -> RegionData.RStmt S-expressions (MiniF exporter + WhileLoop; `access_only` maps what
+# MiniF cannot express to something with the same ACCESSES for the model of the analyses)
+
+def rexport_expr(node, names, access_only=False):
+    from psyclone.psyir import nodes as N
+    if not access_only:
+        return minif.export_expr(node, names)
+    if isinstance(node, N.CodeBlock):
+        return ["lit", 0]                      # CodeBlock.reference_accesses: nothing
+    if isinstance(node, N.Range):
+        out = ["lit", 0]
+        for c in node.children:
+            out = ["bin", "add", out, rexport_expr(c, names, True)]
+        return out
+    if isinstance(node, N.IntrinsicCall):
+        if node.intrinsic.name.upper() in ("LBOUND", "UBOUND", "SIZE"):
+            return ["lit", 0]
+        out = ["lit", 0]
+        for c in node.arguments:
+            out = ["bin", "add", out, rexport_expr(c, names, True)]
+        return out
+    if isinstance(node, (N.BinaryOperation, N.UnaryOperation)):
+        out = ["lit", 0]
+        for c in node.children:
+            out = ["bin", "add", out, rexport_expr(c, names, True)]
+        return out
+    if isinstance(node, N.ArrayReference):
+        idx = [rexport_expr(i, names, True) for i in node.indices]
+        if len(idx) == 1:
+            return ["idx1", names.id(node.name), idx[0]]
+        if len(idx) == 2:
+            return ["idx2", names.id(node.name), idx[0], idx[1]]
+        raise minif.Unsupported("rank")
+    return minif.export_expr(node, names)
+
+
+def rexport_stmt(node, names, access_only=False):
+    from psyclone.psyir import nodes as N
+    ao = access_only
+    if isinstance(node, (list, tuple)):
+        parts = [rexport_stmt(c, names, ao) for c in node]
+        return ["seqs"] + [p for p in parts if p is not None]
+    if isinstance(node, N.Schedule):
+        return rexport_stmt(list(node.children), names, ao)
+    if isinstance(node, N.WhileLoop):
+        return ["while", rexport_expr(node.condition, names, ao), rexport_stmt(node.loop_body, names, ao)]
+    if isinstance(node, N.IfBlock):
+        els = rexport_stmt(node.else_body, names, ao) if node.else_body is not None else ["skip"]
+        return ["ite", rexport_expr(node.condition, names, ao), rexport_stmt(node.if_body, names, ao), els]
+    if isinstance(node, N.Loop):
+        return ["loop", names.id(node.variable.name), rexport_expr(node.start_expr, names, ao),
+                rexport_expr(node.stop_expr, names, ao), rexport_expr(node.step_expr, names, ao),
+                rexport_stmt(node.loop_body, names, ao)]
+    if isinstance(node, N.Assignment) and ao:
+        lhs, rhs = node.lhs, rexport_expr(node.rhs, names, True)
+        if isinstance(lhs, N.ArrayReference):
+            idx = [rexport_expr(i, names, True) for i in lhs.indices]
+            if len(idx) == 1:
+                return ["store1", names.id(lhs.name), idx[0], rhs]
+            if len(idx) == 2:
+                return ["store2", names.id(lhs.name), idx[0], idx[1], rhs]
+            raise minif.Unsupported("rank")
+        if type(lhs) is N.Reference:
+            return ["assign", names.id(lhs.name), rhs]
+        raise minif.Unsupported("lhs")
+    if isinstance(node, N.CodeBlock) and ao:
+        return ["skip"]                        # statement CodeBlock: no accesses recorded
+    return minif.export_stmt(node, names)
 
 
 def rank_of(datatype):
@@ -102,8 +233,8 @@ class Parsed:
         flat = [c for _, cs in per for c in cs]
         return per, flat
 
-    def export(self, nodes):
-        return minif.export_stmt(list(nodes), self.names)
+    def export(self, nodes, access_only=False):
+        return rexport_stmt(list(nodes), self.names, access_only)
 
     def prefix(self, i):
         return self.export(self.routine.children[: self.n_init + i])
@@ -206,8 +337,108 @@ def item_sexps(parsed, nodes):
         if n.walk((CodeBlock, Return)):
             items.append(["x"])
         else:
-            items.append(["s", minif.export_stmt(n, parsed.names)])
+            items.append(["s", rexport_stmt(n, parsed.names)])
     return items
+
+
+def has_codeblock(nodes):
+    from psyclone.psyir.nodes import CodeBlock
+    return any(n.walk(CodeBlock) for n in nodes)
+
+
+def access_items(parsed, nodes):
+    """model items for the ACCESS model of a region that contains CodeBlocks: a top-level
+    statement CodeBlock (or Return) is `(x)`; every other statement is exported with the
+    accesses PSyclone can see (expression CodeBlocks -> literal); `excluded` tells whether
+    some item contains a CodeBlock/Return anywhere (ExtractTrans / ACCDataTrans refuse)"""
+    from psyclone.psyir.nodes import CodeBlock, Return
+    items, excluded = [], False
+    for n in nodes:
+        if n.walk((CodeBlock, Return)):
+            excluded = True
+        if isinstance(n, (CodeBlock, Return)):
+            items.append(["x"])
+        else:
+            items.append(["s", rexport_stmt(n, parsed.names, access_only=True)])
+    if excluded and not any(it == ["x"] for it in items):
+        items.append(["x"])                    # nested excluded node: keep the refusal, no accesses
+    return items
+
+
+# ---------------------------------------------------------------------------
+# gfortran replay oracle for regions MiniF cannot execute (CodeBlocks)
+
+def fortran_pieces(parsed):
+    """(header text with declarations, [text of every top-level statement])"""
+    from psyclone.psyir.backend.fortran import FortranWriter
+    from psyclone.psyir.nodes import Routine
+    w = FortranWriter()
+    p2 = parsed.psyir.copy()
+    r2 = p2.walk(Routine)[0]
+    for c in list(r2.children):
+        c.detach()
+    text = w(r2)
+    head = text[: text.lower().rindex("end program")]
+    return head, [w(c) for c in parsed.routine.children]
+
+
+def gfortran_replay(parsed, i, j, real_in, real_out, delta=1):
+    """Run the program up to the region, (optionally) shift every non-input variable, run the
+    region, print everything.  Returns a list of failures like c12.evaluate, or None if the
+    oracle is not applicable (compile error / original run fails)."""
+    head, stmts = fortran_pieces(parsed)
+    k0 = parsed.n_init + i
+    names = sorted(parsed.rank)
+
+    def program(perturb):
+        body = stmts[:k0]
+        snap = []
+        if perturb:
+            body = body + [f"  {n} = {n} + {delta if parsed.rank[n] == 0 else 1000}\n" for n in names if n not in real_in]
+        body = body + stmts[k0: parsed.n_init + j]
+        out = "".join(f"  print *, {n}\n" for n in names)
+        return head + "".join(body) + "".join(snap) + out + "end program p\n"
+
+    def before_program():
+        out = "".join(f"  print *, {n}\n" for n in names)
+        return head + "".join(stmts[:k0]) + out + "end program p\n"
+
+    def run(src):
+        st, o = minif.gfortran_run(src, flags=("-fcheck=bounds",))
+        return st, o
+
+    st0, o0 = run(before_program())
+    st1, o1 = run(program(False))
+    if st0 != "ok" or st1 != "ok":
+        return None
+    st2, o2 = run(program(True))
+    if st2 == "compile-error":
+        return None
+
+    def split(o):
+        vals = [int(tok) for tok in o.split()]
+        res, k = {}, 0
+        for n in names:
+            ln = 1 if parsed.rank[n] == 0 else (len(A_CELLS) if parsed.rank[n] == 1 else len(M_CELLS) ** 2)
+            res[n] = vals[k:k + ln]
+            k += ln
+        return res
+    before, after = split(o0), split(o1)
+    fails = []
+    for n in names:
+        if before[n] != after[n] and n not in real_out:
+            fails.append(("dynamic-write-not-output", {"variable": n, "oracle": "gfortran"}))
+    if st2 != "ok":
+        fails.append(("replay-differs-on-output", {"oracle": "gfortran", "replayed": "run-time error (" + st2 + ")"}))
+        return fails
+    after_t = split(o2)
+    for n in names:
+        if n in real_out and after[n] != after_t[n]:
+            k = next(k for k in range(len(after[n])) if after[n][k] != after_t[n][k])
+            fails.append(("replay-differs-on-output", {"variable": n, "flat_index": k, "recorded": after[n][k],
+                                                       "replayed": after_t[n][k], "oracle": "gfortran"}))
+    return fails
+
 
 
 # ---------------------------------------------------------------------------
